@@ -251,6 +251,19 @@ commonreal(struct expr **e1, struct expr **e2)
 	return t;
 }
 
+/* the size of the object a pointer points to: a run-time value for a variable-length array */
+static struct expr *
+mksizeexpr(struct type *t, struct type *result)
+{
+	struct expr *e;
+
+	if (t->kind != TYPEARRAY || t->size || !(t->prop & PROPVM))
+		return mkconstexpr(result, t->size);
+	e = mkexpr(EXPRSIZEOF, &typeulong, NULL);
+	e->u.szof.type = t;
+	return exprconvert(e, result);
+}
+
 static struct expr *
 mkbinaryexpr(struct location *loc, enum tokenkind op, struct expr *l, struct expr *r)
 {
@@ -330,9 +343,7 @@ mkbinaryexpr(struct location *loc, enum tokenkind op, struct expr *l, struct exp
 		t = l->type;
 		if (t->base->incomplete || t->base->kind == TYPEFUNC)
 			error(loc, "pointer operand to '+' must be to complete object type");
-		if (t->base->size == 0 && t->base->prop & PROPVM)
-			error(loc, "arithmetic on a pointer to a variable length array is not yet supported");
-		r = mkbinaryexpr(loc, TMUL, exprconvert(r, &typeulong), mkconstexpr(&typeulong, t->base->size));
+		r = mkbinaryexpr(loc, TMUL, exprconvert(r, &typeulong), mksizeexpr(t->base, &typeulong));
 		break;
 	case TSUB:
 		if (lp & PROPARITH && rp & PROPARITH) {
@@ -343,18 +354,16 @@ mkbinaryexpr(struct location *loc, enum tokenkind op, struct expr *l, struct exp
 			error(loc, "invalid operands to '-' operator");
 		if (l->type->base->incomplete || l->type->base->kind == TYPEFUNC)
 			error(loc, "pointer operand to '-' must be to complete object type");
-		if (l->type->base->size == 0 && l->type->base->prop & PROPVM)
-			error(loc, "arithmetic on a pointer to a variable length array is not yet supported");
 		if (rp & PROPINT) {
 			t = l->type;
-			r = mkbinaryexpr(loc, TMUL, exprconvert(r, &typeulong), mkconstexpr(&typeulong, t->base->size));
+			r = mkbinaryexpr(loc, TMUL, exprconvert(r, &typeulong), mksizeexpr(t->base, &typeulong));
 		} else {
 			if (!typecompatible(l->type->base, r->type->base))
 				error(&tok.loc, "pointer operands to '-' are to incompatible types");
 			op = TDIV;
 			t = &typelong;
 			e = mkbinaryexpr(loc, TSUB, exprconvert(l, &typelong), exprconvert(r, &typelong));
-			r = mkconstexpr(&typelong, l->type->base->size);
+			r = mksizeexpr(l->type->base, &typelong);
 			l = e;
 		}
 		break;
@@ -954,8 +963,6 @@ mkincdecexpr(enum tokenkind op, struct expr *base, bool post)
 		error(&tok.loc, "operand of '%s' operator must have scalar type", tokstr[op]);
 	if (base->type->kind == TYPEPOINTER && (base->type->base->incomplete || base->type->base->kind == TYPEFUNC))
 		error(&tok.loc, "pointer operand of '%s' operator must be to complete object type", tokstr[op]);
-	if (base->type->kind == TYPEPOINTER && base->type->base->size == 0 && base->type->base->prop & PROPVM)
-		error(&tok.loc, "arithmetic on a pointer to a variable length array is not yet supported");
 	e = mkexpr(EXPRINCDEC, base->type, base);
 	e->op = op;
 	e->u.incdec.post = post;
